@@ -59,6 +59,20 @@ CLAIMS['C26'] = dict(
          'spawn_next_parentless) have assumed frame contracts justified by the census. The database sentence '
          'of the property (task_pool table == pool after each iteration) is not covered: SQL is opaque.')
 
+CLAIMS['C08'] = dict(
+    category='proof',
+    text='FlowMgr.get_flow (new / given number), FlowMgr.load_from_db and TaskProxy.merge_flows are proved '
+         'against their bodies with the ghost set used = numbers ever written to the workflow_flows table: '
+         'under the class invariant J (keys of flows are used; every used number is <= counter or a key of '
+         'flows) a new flow number is > counter, was never used before, is recorded, and J is preserved; '
+         'load_from_db re-establishes J after a restart from the two SQL facts (MAX is an upper bound of the '
+         'table, selected rows are rows of the table), so numbers used before a restart are never handed out '
+         'again; merge_flows yields exactly the union. Unbounded (loop invariant for the skip loop).',
+    note=_PROOF_NOTE + 'Assumed: put_insert_workflow_flows records the number (definition of the ghost set), '
+         'the two DAO selects (SQL), the wall clock. Not under contract: cli_to_flow_nums integer branch '
+         '(effectful comprehension), TaskPool.merge_flows / spawn_on_output flow propagation and the '
+         '"finished and complete in a flow is not re-run" clause (spawn_task) - not covered by this check.')
+
 NOT_APPLICABLE = {
     'C01': 'equality between the set of instances submitted over a whole run and the spawn-on-demand closure, for '
            'every schedule: a whole-history property; no postcondition of one call states it. Its per-call '
